@@ -11,7 +11,7 @@ import time
 
 VERIF = os.path.dirname(os.path.dirname(os.path.abspath(__file__)))
 SPECS = os.path.join(VERIF, 'specs')
-EVIDENCE = os.path.join(VERIF, 'evidence')
+EVIDENCE = os.environ.get('XDV_EVIDENCE') or os.path.join(VERIF, 'evidence')   # redirected only by the mutant tooling
 REPLAYS = os.path.join(EVIDENCE, 'replays')
 REPO = os.environ.get('XDV_REPO', '/repo')
 SRC = os.environ.get('XDV_SRC', os.path.join(REPO, 'src'))
